@@ -6,7 +6,7 @@ import subprocess
 from benchdefs import BENCH_INVARIANTS, BENCHES, constants
 from framework import HARNESS
 from simcore import Rejection, split_runs, _limit
-from tla import OUT, ToolError, run_tlc
+from tla import OUT, ToolError, run_tlc, confirm_rejection
 
 
 def run_bench(bench, workdir, tag, mode="dfs", threads=1, max_runs=2000, seed=1, yields=True, delay_us=0,
@@ -106,8 +106,11 @@ def _validate_chunk(mod, cfg, chunk, workdir, tag, max_rejections, timeout):
         rs = reason
         if evt is not None and evt.get("ev") in ("hang", "crash") and reason == "unmatched":
             rs = evt["ev"]
-        rejections.append(Rejection(r, k, evt, rs, r[max(0, k - 6):k]))
         remaining = remaining[hit + 1:]
+        if not confirm_rejection(mod, cfg, workdir, tag, r, res):
+            accepted += 1
+            continue
+        rejections.append(Rejection(r, k, evt, rs, r[max(0, k - 6):k]))
     return accepted, rejections, stats
 
 
